@@ -20,7 +20,7 @@ pub struct Error {}
     let res = { let mut last_written_version = inner_lock_ref.write().unwrap(); $body:any }; self.clean_locks(&inner_lock_ref, dest_file_path); res
 //@with
     fn under_the_key_lock<F: FnOnce() -> Result<(), Error>>(last_written_version: &mut u64, version: u64, callback: F) -> Result<(), Error> { $body }
-//@rw R7
+//@rw R7 ?
     callback().map(|_| { $s:any })
 //@with
     match callback() { Ok(_) => { $s Ok(()) }, Err(e) => Err(e) }
